@@ -259,6 +259,10 @@ func (n namedField) SetValue(opts *options, elem value, v value) Error {
 		return raiseExpectedObject(opts, elem)
 	}
 
+	if sub.c.fields == nil {
+		// zero value Config (not made by New)
+		sub.c.fields = &fields{}
+	}
 	sub.c.fields.set(n.name, v)
 	v.SetContext(context{parent: elem, field: n.name})
 	return nil
@@ -279,6 +283,10 @@ func (i idxField) SetValue(opts *options, elem value, v value) Error {
 		return raiseIndexOutOfBounds(opts, elem, i.i)
 	}
 
+	if sub.c.fields == nil {
+		// zero value Config (not made by New)
+		sub.c.fields = &fields{}
+	}
 	sub.c.fields.setAt(i.i, elem, v)
 	v.SetContext(context{parent: elem, field: i.String()})
 	return nil
